@@ -11,6 +11,9 @@ CHECKS = {
     "C02": ("typestate over MIR CFG (product reachability) + effect summaries (bad_on_err fixpoint) + release-gate dominance/who-may-write rules + constant table",
             "All-paths structural decision over the type-checked MIR: (R1) the release gate — a Server field set in claim(), cleared only at the clean end of checkin_cleanup (after successful ROLLBACK/reset, never in COPY mode, no server I/O afterwards) and consulted by has_broken() — makes every exit of the borrowed region, including `?`, panics and dropped futures, unable to hand back an un-cleaned connection; (R2) typestate enumeration of every return of Client::handle inside the borrowed region (armed whenever the gate is absent); (R4) timeout-cancelled server I/O marks the server bad; (R5) SET/PREPARE/named-Parse dirty marking and the ROLLBACK / RESET ROLE / RESET ALL / DEALLOCATE ALL statements; (R6) COPY at check-in => bad.",
             "Does not model the server's actual session state or SET inside transaction blocks; bb8 0.8.6 is trusted to call has_broken() on guard drop and discard broken connections. " + TRUST, "DESIGN.md §4 C02"),
+    "C05": ("dominance on discriminant arms + field/variant coverage of the classifier (call-graph closure incl. sqlparser Visitor impls) + flag discipline (must-pass) + provenance of checkout arguments + table extraction",
+            "All-paths/all-sites structural decision over the type-checked MIR of QueryRouter::infer, its classifier, Client::handle and ConnectionPool::get: non-primary roles are assigned only inside the Statement::Query arm; every other arm (present or future Statement variants) assigns Some(Primary) before any exit; the classifier inspects Query.locks, Select.into, SetExpr::Insert/Update and traverses nested queries/CTEs/set operations; a positive verdict is sticky for the rest of the message and precedes every error exit; the checkout's shard/role arguments are the router's shard()/role(); candidates are filtered by `address.role == role` and never extended; the SET SERVER ROLE literal table equals the reference.",
+            "Does not decide that sqlparser's AST/traversal matches PostgreSQL's grammar, nor the db-activity timers; per-batch stickiness across several Parse messages is not decided (see DESIGN.md). " + TRUST, "DESIGN.md §4 C05"),
     "C09": ("must-pass-through over MIR CFG + provenance (def-use) + who-may-construct",
             "All-paths structural proof over the type-checked MIR of Client::startup: every CFG path to the AuthenticationOk write crosses a trust arm or the equal edge of a comparison between the client's response buffer and an MD5 hash computed from configured secrets and the salt issued on this connection; pool-found and admin-only gates likewise; Client values are only constructed behind auth_ok. Decides the authentication mechanism for every input, not sampled inputs.",
             "Does not decide MD5 itself, TLS, or timing. " + TRUST, "DESIGN.md §4 C09"),
